@@ -207,3 +207,9 @@ def siblings_wellformed(I, cu):
                   patterns=[A_has(arr, cuo, c, sib)]),
         # the encoded tree is laid out forwards: the children of an entry lie after it
         z3.ForAll([c, k], z3.Implies(k >= 0, _child(arr, cuo, c, k) > c), patterns=[_child(arr, cuo, c, k)]))
+
+
+@_native
+def has_top(I, cu):
+    """the unit's root entry is already in the entry cache (reads the representation field: specification only)"""
+    return to_int(cu.attrs['_diemap'].n) > 0
